@@ -544,6 +544,25 @@ pub fn families(prop: &str, tier: Tier) -> Vec<Cfg> {
                 a.watchdog_calls = 600;
                 v.push(a);
             }
+            // identifiers that alias each other modulo a power of two (8 ... 32768) in flight together, then
+            // the counter comes round to one of them
+            let mut m = Cfg::base("C07-identifiers-aliasing-modulo-powers-of-two");
+            m.props = vec!["C07"];
+            m.ops = vec![OpK::Pub2, OpK::Pub1, OpK::Sub, OpK::Poll, OpK::Age];
+            m.age_aliases = if q { vec![16, 32, 256] } else { vec![8, 16, 32, 64, 256, 4096, 32768] };
+            m.io = IoMenu::benign();
+            m.broker.reorder_window = 3;
+            m.preludes = vec![
+                vec![OpK::Pub2, OpK::Poll, OpK::Age, OpK::Pub2, OpK::Poll],
+                vec![OpK::Pub1, OpK::Age, OpK::Pub1],
+                vec![OpK::Sub, OpK::Age, OpK::Pub2, OpK::Poll],
+            ];
+            m.max_ops = if q { 9 } else { 10 };
+            m.max_conns = 1;
+            m.max_reqs = if q { 3 } else { 4 };
+            m.dev = 0;
+            m.watchdog_calls = 600;
+            v.push(m);
             v
         }
         "C11" => {
@@ -598,7 +617,16 @@ pub fn families(prop: &str, tier: Tier) -> Vec<Cfg> {
             c.max_reqs = 2;
             c.dev = if q { 2 } else { 3 };
             c.drain = false;
-            vec![a, b, c]
+            // the same with a DISCONNECT that carries properties (written from the transmit arena) and a
+            // CONNECT of more than 127 bytes
+            let mut d = c.clone();
+            d.family = "C11-fault-or-cancellation-during-disconnect-with-properties";
+            d.ops = vec![OpK::Pub1, OpK::Poll, OpK::Disconnect];
+            d.big_connect = true;
+            d.tx = 512;
+            d.max_ops = 5;
+            d.dev = 3;
+            vec![a, b, c, d]
         }
         "C12" => {
             let mut a = Cfg::base("C12-after-any-failure-or-cancellation");
@@ -714,6 +742,8 @@ pub fn families(prop: &str, tier: Tier) -> Vec<Cfg> {
             c.cancel = true;
             c.cancel_connect = false;
             c.cancel_only = Some(vec![OpK::Disconnect]);
+            c.big_connect = true;
+            c.tx = 512;
             c.ops = vec![OpK::Pub1, OpK::Poll, OpK::Disconnect];
             c.io = IoMenu::partial();
             c.broker.reorder_window = 1;
@@ -847,7 +877,7 @@ pub fn families(prop: &str, tier: Tier) -> Vec<Cfg> {
             e.twin = Some(Twin::Fragment);
             e.drain_script = true;
             e.prune = false;
-            e.ops = vec![OpK::Pub0, OpK::Pub1, OpK::Pub2, OpK::Sub, OpK::Unsub, OpK::Poll, OpK::DropConn];
+            e.ops = vec![OpK::Pub0, OpK::Pub1, OpK::Pub2, OpK::Sub, OpK::Unsub, OpK::Poll, OpK::DropConn, OpK::Disconnect];
             e.io = IoMenu::partial();
             rich(&mut e);
             e.broker.reorder_window = 1;
@@ -874,7 +904,7 @@ pub fn families(prop: &str, tier: Tier) -> Vec<Cfg> {
             f.broker.script = vec![inpub_big(0, 0), inpub(1, 11), inpub_big(2, 12)];
             f.broker.reorder_window = 1;
             f.broker.fifo = true;
-            f.max_ops = if q { 4 } else { 5 };
+            f.max_ops = 4;
             f.max_conns = 1;
             f.max_reqs = 0;
             f.dev = if q { 2 } else { 3 };
